@@ -514,7 +514,7 @@ func init() {
 		c.Compare = c11cmp
 		c11skipped = func(s string) { c.Dist[s]++ }
 		c.Rule = "pairs of family-graph documents (edited copy: shared / disjoint / shifted pointers, dropped and added people, typos, identical twins, shared unique ids, a duplicated unique id, empty sides) x options (default and random, thresholds incl. 0 and 1) x Jobs in {0,1,2,3,8,16} x GOMAXPROCS in {1,2,16}; every run checked for validity, all runs of a case compared with the sequential one when no scores tie; the model is run on the sequential and on permuted arrival orders; distinct = distinct (sequential result, options)"
-		n := c.N(700, 6000)
+		n := c.N(500, 6000)
 		for i := 0; i < n; i++ {
 			c11one(c, i)
 		}
